@@ -39,6 +39,14 @@ def _cov(S, rep, N, bs, prefix="g"):
         R = Gc.clone()
         S.put(R, Gs)
         return RootLinearOperator(R), Cs, Gs
+    if rep == "full_root":
+        # a square root that is NOT triangular: R = G Q with Q a rational rotation, so that R R^T = G G^T still
+        Q = np.eye(N)
+        Q[:2, :2] = [[0.6, -0.8], [0.8, 0.6]]
+        Qs = np.array([[Sym.const(float(Q[i, j])) for j in range(N)] for i in range(N)], dtype=object)
+        R = Gc @ torch.tensor(Q)
+        S.put(R, Gs @ Qs)
+        return RootLinearOperator(R), Cs, Gs
     if rep == "wide_root":
         # a rectangular N x (N+1) root [G | 0]: same covariance G G^T, root with more columns than the event size
         R = torch.cat([Gc, torch.zeros(*bs, N, 1)], dim=-1)
@@ -65,12 +73,13 @@ def _logpdf(G, m, v):
     return (quad + logdet + Sym.const(N * LOG2PI)) * Sym.const(-0.5)
 
 
-def logprob(S, N, dbs, vbs, rep, fast):
+def logprob(S, N, dbs, vbs, rep, fast, vev=None):
+    """vev=1: the value has event size 1 and broadcasts along the event dimension as well"""
     dbs, vbs = tuple(dbs), tuple(vbs)
     mean = S.randn(*dbs, N)
     Ms = S.sym_tensor(mean, "m")
     cov, Cs, Gs = _cov(S, rep, N, dbs)
-    val = S.randn(*vbs, N)
+    val = S.randn(*vbs, vev or N)
     Vs = S.sym_tensor(val, "v")
     with S.mode(), gpytorch.settings.fast_computations(log_prob=fast):
         d = MultivariateNormal(mean, cov)
@@ -180,7 +189,20 @@ def moments_ops(S, N, bs, rep):
         jit = d.add_jitter(0.25)
         jit_m, jit_c = jit.mean, jit.covariance_matrix
         cm = d.covariance_matrix
+        tril = d.scale_tril
+        ent = d.entropy()
+        prec = d.precision_matrix
     diag = np.diagonal(Cs, axis1=-2, axis2=-1)
+    # scale_tril is THE lower-triangular factor with positive diagonal (unique): the declared factor G
+    S.prove_eq(tril, Gs, "scale_tril = lower Cholesky factor of the covariance")
+    ent_ref = np.empty(bs, dtype=object)
+    for b in np.ndindex(*bs):
+        ent_ref[b] = sum((sym_log(Gs[b][i, i]) for i in range(N)), Sym.const(0.5 * N * (1.0 + LOG2PI)))
+    S.prove_eq(ent, ent_ref if bs else np.array(ent_ref[()], dtype=object).reshape(()), "entropy = N/2 (1 + log 2 pi) + 1/2 log det")
+    prec_ref = np.empty(bs + (N, N), dtype=object)
+    for b in np.ndindex(*bs):
+        prec_ref[b] = spd_solve(Gs[b], eye(N))
+    S.prove_eq(prec, prec_ref, "precision_matrix = covariance^-1")
     S.prove_eq(var, diag, "variance = diag")
     S.prove_eq(cm, Cs, "covariance_matrix")
     StdS = as_sym_arr(SH.get(std))
@@ -330,6 +352,10 @@ def scenarios(tier, seed):
         pairs = [((), ()), ((2,), ()), ((), (2,)), ((2,), (3, 2)), ((2, 1), (1, 2)), ((1,), (2,))]
         for i, (db, vb) in enumerate(pairs):
             add("logprob", N=3 if i % 2 == 0 else 2, dbs=list(db), vbs=list(vb), rep=["dense", "lazy", "root", "added_diag"][i % 4], fast=bool(i % 2))
+        add("logprob", N=3, dbs=[], vbs=[2], rep="lazy", fast=True, vev=1)
+        add("logprob", N=2, dbs=[2], vbs=[], rep="full_root", fast=False, vev=1)
+        add("logprob", N=3, dbs=[], vbs=[], rep="full_root", fast=False)
+        add("moments_ops", N=2, bs=[], rep="full_root")
         add("kl", N=3, pbs=[], qbs=[], rep="lazy")
         add("kl", N=2, pbs=[2], qbs=[], rep="root")
         add("kl", N=3, pbs=[], qbs=[], rep="wide_root")
@@ -355,6 +381,15 @@ def scenarios(tier, seed):
                     k += 1
         add("kl", N=3, pbs=[], qbs=[], rep="wide_root")
         add("kl", N=2, pbs=[2], qbs=[], rep="wide_root")
+        for fast in (True, False):
+            for rep in ("dense", "lazy", "root", "full_root"):
+                add("logprob", N=3, dbs=[], vbs=[2], rep=rep, fast=fast, vev=1)
+                add("logprob", N=2, dbs=[2], vbs=[3, 1], rep=rep, fast=fast, vev=1)
+            add("logprob", N=3, dbs=[], vbs=[], rep="full_root", fast=fast)
+            add("logprob", N=2, dbs=[2], vbs=[2], rep="full_root", fast=fast)
+        add("moments_ops", N=3, bs=[], rep="full_root")
+        add("moments_ops", N=2, bs=[2], rep="full_root")
+        add("rsample", N=2, bs=[], rep="full_root", nsamp=2)
         for rep in ("dense", "lazy", "root", "added_diag"):
             add("kl", N=3, pbs=[], qbs=[], rep=rep)
             add("kl", N=2, pbs=[2], qbs=[1], rep=rep)
